@@ -99,6 +99,7 @@ impl Callback for Balances {
                 .write_all(format!("{};{}\n", address, balance).as_bytes())?;
         }
 
+        self.writer.flush()?;
         fs::rename(
             self.dump_folder.as_path().join("balances.csv.tmp"),
             self.dump_folder.as_path().join(format!(
